@@ -25,11 +25,11 @@ theorem opsHold_single (op : String) (sv : Val) (cs : List (Option Val)) (hop : 
 
 theorem leafOps_dollar {op : String} (hop : op ∈ leafOps) : op.startsWith "$" = true := by
   simp only [leafOps, List.mem_cons, List.not_mem_nil, or_false] at hop
-  rcases hop with h | h | h | h | h | h | h | h | h <;> subst h <;> decide +kernel
+  rcases hop with h | h | h | h | h | h | h | h | h | h <;> subst h <;> decide +kernel
 
 theorem leafOps_opmap {op : String} (hop : op ∈ leafOps) : operatorMapKeys.contains op = true := by
   simp only [leafOps, List.mem_cons, List.not_mem_nil, or_false] at hop
-  rcases hop with h | h | h | h | h | h | h | h | h <;> subst h <;> decide
+  rcases hop with h | h | h | h | h | h | h | h | h | h <;> subst h <;> decide
 
 theorem ne_of_not_dollar {k lit : String} (h : k.startsWith "$" = false)
     (hl : lit.startsWith "$" = true) : k ≠ lit := by
@@ -37,14 +37,195 @@ theorem ne_of_not_dollar {k lit : String} (h : k.startsWith "$" = false)
 
 /-- a single positive/negative leaf operator -/
 theorem cond_single (nb : Bool) (op : String) (sv : Val) (key : String) (d : Val)
-    (cs : List (Option Val)) (hck : candsKey key d = .ok cs) (hr : opReasons op sv cs = [])
+    (cs : List (Option Val)) (hck : candsKey key d = .ok cs) (hall : op ≠ "$all")
+    (hr : opReasons op sv cs = [])
     (hs : Clean nb sv) (hcs : CandsAll (Clean nb) cs) :
     op ∈ leafOps ∧ ∃ b, applyKey (.doc [(op, sv)]) key d = .ok b ∧ opsHold [(op, sv)] cs = .ok b := by
-  obtain ⟨hop, b, h1, h2⟩ := spec_single nb op sv cs hr hs hcs
+  obtain ⟨hop, b, h1, h2⟩ := spec_single nb op sv cs hall hr hs hcs
   refine ⟨hop, b, ?_, ?_⟩
   · rw [applyKey_single op sv key d hop, hck]; exact h1
   · rw [opsHold_single op sv cs hop]; exact h2
 
+
+/-! ### `$all` -/
+
+theorem all_congr' {α} {f g : α → Bool} {xs : List α} (h : ∀ x, x ∈ xs → f x = g x) :
+    xs.all f = xs.all g := by
+  induction xs with
+  | nil => rfl
+  | cons x xs ih =>
+    simp only [List.all_cons]
+    rw [h x (by simp), ih (fun x hm => h x (by simp [hm]))]
+
+/-- what the matcher computes for `{$all: vs}` alone under a key, given the candidates -/
+theorem applyKey_all (vs : List Val) (key : String) (d : Val) (cs : List (Option Val))
+    (hck : candsKey key d = .ok cs) :
+    applyKey (.doc [("$all", .arr vs)]) key d = allOp (.arr vs) (.list cs) := by
+  have hpe : pyEq (Val.doc [("$all", .arr vs)]) (Val.doc [("$exists", Val.bool false)]) = false := by
+    simp [pyEq, pyEqFields, dget]
+  rw [applyKey.eq_1]
+  simp only [hck, bind, Except.bind, dkeys, List.map_cons, List.map_nil, hpe, Bool.false_and,
+    Bool.false_eq_true, ↓reduceIte, List.contains_cons, List.contains_nil, beq_self_eq_true,
+    Bool.true_or, allPre, List.length_cons, List.length_nil, Bool.and_self]
+  rcases allOp (.arr vs) (.list cs) with e | b
+  · rfl
+  · cases b <;> rfl
+
+theorem allItems_plain (vs : List Val) (a : AllArg) (hel : vs.any isElemItem = false) :
+    allItems vs a = .ok (vs.map (fun x => pyInOpt x a.forced)) := by
+  induction vs with
+  | nil => rfl
+  | cons v vs ih =>
+    simp only [List.any_cons, Bool.or_eq_false_iff] at hel
+    have ih' := ih hel.2
+    cases v with
+    | doc fs =>
+      have : dhas "$elemMatch" fs = false := by simpa [isElemItem] using hel.1
+      rw [allItems.eq_2]
+      simp [this, ih', bind, Except.bind, pure, Except.pure]
+    | _ =>
+      rw [allItems.eq_3 _ _ _ (by intro fs e; cases e)]
+      simp [ih', bind, Except.bind, pure, Except.pure]
+
+theorem allHold_plain (vs : List Val) (cs : List (Option Val)) (hel : vs.any isElemItem = false) :
+    allHold vs cs = .ok (vs.all (fun x => (eqLeaf x).holds cs)) := by
+  induction vs with
+  | nil => rfl
+  | cons v vs ih =>
+    simp only [List.any_cons, Bool.or_eq_false_iff] at hel
+    rw [allHold.eq_3 _ _ _ (by
+      intro gs e; subst e
+      have := hel.1
+      simp [isElemItem, dhas, dget] at this), ih hel.2]
+    rfl
+
+/-- the candidates as `_all_op` sees them, in D: unchanged when none is an array, the elements
+    of the array when it is the only candidate -/
+theorem allArgNorm_inD (cs : List (Option Val))
+    (hmc : (decide (cs.length > 1) && cs.any isArrCand) = false) :
+    (cs.any isArrCand = false ∧ allArgNorm (.list cs) = .ok (.list cs)) ∨
+    (∃ ys, cs = [some (.arr ys)] ∧ allArgNorm (.list cs) = .ok (.list (ys.map some))) := by
+  by_cases ha : cs.any isArrCand = true
+  · right
+    simp only [ha, Bool.and_true, decide_eq_false_iff_not, Nat.not_lt] at hmc
+    match cs, hmc, ha with
+    | [], _, ha => simp at ha
+    | [c], _, ha =>
+      match c, ha with
+      | some (.arr ys), _ =>
+        exact ⟨ys, rfl, by simp [allArgNorm, chainFlatten, Except.map]⟩
+      | none, ha => simp [isArrCand] at ha
+      | some .null, ha => simp [isArrCand] at ha
+      | some (.bool _), ha => simp [isArrCand] at ha
+      | some (.int _), ha => simp [isArrCand] at ha
+      | some (.dbl _ _), ha => simp [isArrCand] at ha
+      | some (.str _), ha => simp [isArrCand] at ha
+      | some (.date _ _), ha => simp [isArrCand] at ha
+      | some (.oid _), ha => simp [isArrCand] at ha
+      | some (.doc _), ha => simp [isArrCand] at ha
+    | _ :: _ :: _, hmc, _ => simp at hmc
+  · left
+    have ha' : cs.any isArrCand = false := by simpa using ha
+    refine ⟨ha', ?_⟩
+    match cs, ha' with
+    | [], _ => rfl
+    | some (.arr ys) :: r, h => simp [isArrCand] at h
+    | none :: r, _ => rfl
+    | some .null :: r, _ => rfl
+    | some (.bool _) :: r, _ => rfl
+    | some (.int _) :: r, _ => rfl
+    | some (.dbl _ _) :: r, _ => rfl
+    | some (.str _) :: r, _ => rfl
+    | some (.date _ _) :: r, _ => rfl
+    | some (.oid _) :: r, _ => rfl
+    | some (.doc _) :: r, _ => rfl
+
+/-- membership of one `$all` item among candidates none of which is an array -/
+theorem pyInOpt_flat (nb : Bool) (x : Val) (cs : List (Option Val)) (hx : Clean nb x)
+    (hsd : smallDocs x = true) (hna : x.isArr = false) (hcs : CandsAll (Clean nb) cs)
+    (ha : cs.any isArrCand = false) : pyInOpt x cs = (eqLeaf x).holds cs := by
+  simp only [pyInOpt, Leaf.holds]
+  refine any_congr' (fun c hm => ?_)
+  rw [← opEq_eq nb x c hx hsd hna (hcs c hm)]
+  have hc : isArrCand c = false := by
+    rw [List.any_eq_false] at ha
+    simpa using ha c hm
+  match c, hc with
+  | none, _ => cases x <;> rfl
+  | some (.arr _), hc => simp [isArrCand] at hc
+  | some .null, _ => rfl
+  | some (.bool _), _ => rfl
+  | some (.int _), _ => rfl
+  | some (.dbl _ _), _ => rfl
+  | some (.str _), _ => rfl
+  | some (.date _ _), _ => rfl
+  | some (.oid _), _ => rfl
+  | some (.doc _), _ => rfl
+
+/-- membership of one `$all` item among the elements of the only candidate, an array -/
+theorem pyInOpt_arr (nb : Bool) (x : Val) (ys : List Val) (hx : Clean nb x)
+    (hsd : smallDocs x = true) (hna : x.isArr = false) (hys : Clean nb (.arr ys)) :
+    pyInOpt x (ys.map some) = (eqLeaf x).holds [some (.arr ys)] := by
+  have h := opEq_eq nb x (some (.arr ys)) hx hsd hna (by intro v hv; cases hv; exact hys)
+  simp only [Leaf.holds, List.any_cons, List.any_nil, Bool.or_false]
+  rw [← h]
+  simp [pyInOpt, opEq, hna, operatorEq, List.any_map, Function.comp_def]
+
+/-- `$all` in D -/
+theorem cond_all (nb : Bool) (sv : Val) (key : String) (d : Val) (cs : List (Option Val))
+    (hck : candsKey key d = .ok cs) (hr : allReasons sv cs = [])
+    (hs : Clean nb sv) (hcs : CandsAll (Clean nb) cs) :
+    ∃ b, applyKey (.doc [("$all", sv)]) key d = .ok b ∧ opsHold [("$all", sv)] cs = .ok b := by
+  cases sv with
+  | arr vs =>
+    simp only [allReasons, operandReasons, List.append_eq_nil_iff] at hr
+    obtain ⟨⟨⟨hr1, hr2⟩, hr3⟩, hr4⟩ := hr
+    have hna : vs.any Val.isArr = false := by
+      by_cases h : vs.any Val.isArr = true
+      · simp [h] at hr1
+      · simpa using h
+    have hsd : smallDocs (.arr vs) = true := by
+      by_cases h : smallDocs (.arr vs) = true
+      · exact h
+      · simp [h] at hr2
+    have hel : vs.any isElemItem = false := by
+      by_cases h : vs.any isElemItem = true
+      · simp [h] at hr3
+      · simpa using h
+    have hmc : (decide (cs.length > 1) && cs.any isArrCand) = false := by
+      by_cases h : (decide (cs.length > 1) && cs.any isArrCand) = true
+      · simp [h] at hr4
+      · simpa using h
+    have hitem : ∀ x, x ∈ vs → Clean nb x ∧ smallDocs x = true ∧ x.isArr = false := by
+      intro x hm
+      refine ⟨(hered_clean nb).arr vs x hs hm, hered_smallDocs.arr vs x hsd hm, ?_⟩
+      rw [List.any_eq_false] at hna
+      simpa using hna x hm
+    refine ⟨!vs.isEmpty && vs.all (fun x => (eqLeaf x).holds cs), ?_, ?_⟩
+    · rw [applyKey_all vs key d cs hck, allOp.eq_1]
+      cases hve : vs.isEmpty with
+      | true => simp [pure, Except.pure]
+      | false =>
+        simp only [Bool.false_eq_true, ↓reduceIte, Bool.not_false, Bool.true_and]
+        rcases allArgNorm_inD cs hmc with ⟨ha, hn⟩ | ⟨ys, rfl, hn⟩
+        · rw [hn]
+          simp only [bind, Except.bind, allItems_plain vs _ hel, AllArg.forced, pure, Except.pure,
+            List.all_map, Function.comp_def, id]
+          congr 1
+          refine all_congr' (fun x hm => ?_)
+          obtain ⟨h1, h2, h3⟩ := hitem x hm
+          exact pyInOpt_flat nb x cs h1 h2 h3 hcs ha
+        · rw [hn]
+          have hys : Clean nb (.arr ys) := hcs _ (by simp) _ rfl
+          simp only [bind, Except.bind, allItems_plain vs _ hel, AllArg.forced, pure, Except.pure,
+            List.all_map, Function.comp_def, id]
+          congr 1
+          refine all_congr' (fun x hm => ?_)
+          obtain ⟨h1, h2, h3⟩ := hitem x hm
+          exact pyInOpt_arr nb x ys h1 h2 h3 hys
+    · simp only [opsHold, ↓reduceIte, allHold_plain vs cs hel]
+      cases vs.isEmpty <;> simp [bind, Except.bind, pure, Except.pure]
+  | _ => simp [allReasons] at hr
 
 /-- a one-field document operand without `$` key: implicit equality -/
 theorem applyKey_plain_doc (k : String) (v : Val) (key : String) (d : Val)
@@ -69,6 +250,19 @@ theorem applyKey_plain_doc (k : String) (v : Val) (key : String) (d : Val)
   cases cs <;> simp
 
 
+/-- the empty document operand: implicit equality with `{}` -/
+theorem applyKey_plain_empty (key : String) (d : Val) (cs : List (Option Val))
+    (hck : candsKey key d = .ok cs) :
+    applyKey (.doc []) key d = .ok (cs.any (plainMatch (.doc []))) := by
+  have hpe : pyEq (Val.doc []) (Val.doc [("$exists", Val.bool false)]) = false := by
+    simp [pyEq]
+  obtain ⟨h', e⟩ := candLoop_pos (plainMatch (.doc [])) cs false false
+  rw [applyKey.eq_1]
+  simp only [hck, bind, Except.bind, dkeys, List.map_nil, hpe, isOpsFilter, List.isEmpty_nil,
+    Bool.not_true, Bool.false_and, List.contains_nil, Bool.false_eq_true, ↓reduceIte, pure,
+    Except.pure, Bool.or_self, e, Bool.true_or, Bool.or_true, Bool.and_true, Bool.not_not]
+  cases cs <;> simp
+
 theorem applyKey_plain_nondoc (c : Val) (key : String) (d : Val) (cs : List (Option Val))
     (hc : ∀ fs, c = .doc fs → False) (hck : candsKey key d = .ok cs) :
     applyKey c key d = .ok (cs.any (plainMatch c)) := by
@@ -89,13 +283,20 @@ theorem cond_not (nb : Bool) (op sv) (key : String) (d : Val)
     (hs : Clean nb sv) (hcs : CandsAll (Clean nb) cs) :
     ∃ b, applyKey (.doc [("$not", .doc [(op, sv)])]) key d = .ok b ∧
       opsHold [("$not", .doc [(op, sv)])] cs = .ok b := by
-  obtain ⟨hop, b, h1, h2⟩ := cond_single nb op sv key d cs hck hr hs hcs
+  have key' : ∃ b, operatorMapKeys.contains op = true ∧ op.startsWith "$" = true ∧
+      applyKey (.doc [(op, sv)]) key d = .ok b ∧ opsHold [(op, sv)] cs = .ok b := by
+    by_cases hall : op = "$all"
+    · subst hall
+      obtain ⟨b, h1, h2⟩ := cond_all nb sv key d cs hck (by simpa [opReasons] using hr) hs hcs
+      exact ⟨b, by decide, by decide +kernel, h1, h2⟩
+    · obtain ⟨hop, b, h1, h2⟩ := cond_single nb op sv key d cs hck hall hr hs hcs
+      exact ⟨b, leafOps_opmap hop, leafOps_dollar hop, h1, h2⟩
+  obtain ⟨b, hom, hdl, h1, h2⟩ := key'
   refine ⟨!b, ?_, ?_⟩
   · rw [not_eq_neg key [(op, sv)] d cs hck hne (by
-      have := leafOps_opmap hop
-      simp only [List.all_cons, List.all_nil, this, Bool.true_or, Bool.and_self]), h1]; rfl
+      simp only [List.all_cons, List.all_nil, hom, Bool.true_or, Bool.and_self]), h1]; rfl
   · simp only [opsHold, isOps, List.isEmpty_cons, Bool.not_false, List.all_cons, List.all_nil,
-      leafOps_dollar hop, Bool.and_self, ↓reduceIte, h2]
+      hdl, Bool.and_self, ↓reduceIte, h2]
     rw [bind_and_true]; rfl
 
 
@@ -123,7 +324,10 @@ theorem cond_spec (nb : Bool) (c : Val) (key : String) (d : Val) (cs : List (Opt
   cases c with
   | doc fs =>
     match fs, hr, hc with
-    | [], hr, _ => simp [condReasons, isOps, hasDollarKey] at hr
+    | [], hr, hc =>
+      refine ⟨(eqLeaf (.doc [])).holds cs, ?_, ?_⟩
+      · rw [applyKey_plain_empty key d cs hck, plain_any_eq nb _ cs hc (by decide) hcs]
+      · simp [condHolds, isOps, hasDollarKey]
     | _ :: _ :: _, hr, _ =>
       simp only [condReasons, operandReasons, smallDocs] at hr
       split at hr
@@ -160,7 +364,10 @@ theorem cond_spec (nb : Bool) (c : Val) (key : String) (d : Val) (cs : List (Opt
             | _ :: _ :: _, hr, _ => simp at hr
           | _ => simp at hr
         · simp only [hn, ↓reduceIte] at hr
-          exact (cond_single nb op sv key d cs hck hr hsv hcs).2
+          by_cases hall : op = "$all"
+          · subst hall
+            exact cond_all nb sv key d cs hck (by simpa [opReasons] using hr) hsv hcs
+          · exact (cond_single nb op sv key d cs hck hall hr hsv hcs).2
       · have hk : op.startsWith "$" = false := by
           simpa [isOps] using hops
         have hdk : hasDollarKey [(op, sv)] = false := by simp [hasDollarKey, hk]
